@@ -7,6 +7,8 @@ Driver for C14 (protocol of harness/props/c14):
   K <dirs> <nrows> <nkeys> <cell>*   dirs ∈ {A,D}*, cell = term | `-` (unbound)
   S <A|D> <n> <term>*n               big sort
   M <dirs> <nrows> <nkeys> <limit|-> <offset> <cell>*   big multi-key sort (classification only)
+  Q <dirs> <nrows> <nkeys> <cell>*   2..20 rows sorted together in the given input order: `out=` the EXACT output order predicted
+                                     by `stdSmallSort` (std's insertion sort for <= 20 elements) with `cmpBindingsWith`
   X <P|B|S> <n> <term>*n             one key that is not a plain variable: `?k + 0`, BIND(?k * 1 AS ?b), STR(?k);
                                      reply `o.xv=`: the order SPARQL's `<` gives the key values (oracle only)
 Replies: `m=` the rows×rows matrix of outcome letters predicted by `cmpBindingsWith` for the
@@ -203,6 +205,12 @@ def xReply (strMode : Bool) (ts : List Term) : String :=
   if !strMode && oodDecimal ts then "skip=ood" else
   reply [kvN "n" ts.length, kv "o.xv" (String.ofList (ks.flatMap (fun a => ks.map (fun b => xExpected a b))))]
 
+/-- output order (row indices) of `ORDER BY` over at most 20 rows fed in the given order -/
+def sortOut (dirs : List Bool) (rows : List Row) : String :=
+  let tagged : List (Nat × Binding) := rows.zipIdx.map (fun (r, i) => (i, rowBinding r))
+  let sorted := stdSmallSort (fun a b => cmpBindingsWith a.2 b.2 (criteria dirs)) tagged
+  ",".intercalate (sorted.map (fun p => toString p.1))
+
 def parseDirs (s : String) : Option (List Bool) :=
   s.toList.mapM (fun c => if c == 'A' then some false else if c == 'D' then some true else none)
 
@@ -235,6 +243,20 @@ def handle (line : String) : String :=
       | some (cells, _) =>
         if n < 2 || cells.any Option.isNone then "bad-op" else xReply strMode (cells.filterMap id)
     | _, _ => "bad-op"
+  | "Q" :: ds :: nrs :: nks :: rest =>
+    match parseDirs ds, nrs.toNat?, nks.toNat? with
+    | some dirs, some nr, some nk =>
+      if dirs.length != nk || nk == 0 || nr < 2 || nr > smallSortMax then "bad-op" else
+      match parseCells (nr * nk) rest with
+      | none => "bad-hex"
+      | some (cells, _) =>
+        let rows := (List.range nr).map (fun i => (cells.drop (i * nk)).take nk)
+        let ts := cellsOf rows
+        if ts.any (fun t => !inDomain t) then "skip=domain"
+        else if oodDecimal ts then "skip=ood"
+        else if rows.any rowPanics then "skip=panic"
+        else reply [kvN "n" nr, kv "out" (sortOut dirs rows), kv "outd" (sortOut (dirs.map (!·)) rows)]
+    | _, _, _ => "bad-op"
   | "M" :: ds :: nrs :: nks :: lim :: offs :: rest =>
     match parseDirs ds, nrs.toNat?, nks.toNat?, offs.toNat? with
     | some dirs, some nr, some nk, some _ =>
